@@ -377,6 +377,22 @@ def escapes_consume(ctx):
         if lits[:1] == ["\\"] and "\n" in lits:
             ok = True
     ctx.check(ok, "backslash-newline", db.where(c), "no consuming backslash-newline stop in the text regex: the escape would be copied to the output", "consuming alternative \\\\\\r?\\n outside the text group")
+    # everything a stop alternative consumes is dropped from the output: only backslash + line terminator may be
+    for a in stops:
+        lang = rx.finite_language(a, rx.flags_of(sub))
+        dropped = None if lang is None else [w for w in lang if w]
+        allowed = {"\\\n", "\\\r\n"}
+        if dropped is None:
+            ctx.violation("text-stop.consumes-only-escape", db.where(c), "the text regex's stop alternative %s consumes an unbounded / open set of strings, which are dropped from the output; only a backslash directly followed by a line terminator is an escape" % rx.describe(a))
+        elif dropped:
+            ctx.check(set(dropped) <= allowed, "text-stop.consumes-only-escape", db.where(c), "the text regex's stop alternative %s consumes %r, which is dropped from the output; only a backslash directly followed by a line terminator is an escape" % (rx.describe(a), sorted(set(dropped) - allowed)), "consumes exactly backslash + \\r?\\n")
+    # the coding comment skipped by parse() is one line starting with '#'
+    cre = db.class_assign("lexer.Lexer", "_coding_re")
+    ctx.require(isinstance(cre, ast.Call) and str_value(cre.args[0]) is not None, "Lexer._coding_re not found")
+    csub = rx.parse(str_value(cre.args[0]), _flags_value(cre.args[1]) if len(cre.args) > 1 else 0)
+    nl = rx.max_count(csub, "\n")
+    pre_, _rest = rx.literal_prefix(csub)
+    ctx.check(nl == 1 and pre_.startswith("#"), "coding-comment.one-line", db.where(cre), "the coding-comment regex, whose match parse() skips without a node, can consume %s line terminators (prefix %r): a line of text next to the comment is dropped from the output" % (nl, pre_), "one line starting with #")
     g1 = rx.find_group(sub, 1)
     ctx.check(g1 is not None and list(sub)[0][0] == rx.OP.SUBPATTERN and list(sub)[0][1][0] == 1, "text-group-first", db.where(c), "the captured text is not the leading group", "group 1 is the text before the stop")
     pat, fl, c = sites["match_control_line"]
